@@ -1,20 +1,48 @@
 import PGM.Proofs.VECorrect
 import PGM.Proofs.Dataset
+import PGM.Proofs.QueryDV
+import PGM.Proofs.QueryKron
+import PGM.Proofs.QueryMM
 /-! correctness of the remaining query paths: `datavector`, `krondot`, `calculate_many_marginals` -/
 namespace PGM.Sem
 open PGM PGM.JT PGM.GM
 variable {K : Type} [Field K] [LinearOrder K] [IsStrictOrderedRing K]
+set_option linter.unusedVariables false
+
+/-- with duplicate-free keys, looking the keys up in order returns the stored tables in order -/
+theorem map_get_eq_of_nodup {α : Type} [Scalar α] (pots : CliqueVec α) (h : (pots.map Prod.fst).Nodup) :
+    (pots.map Prod.fst).map pots.get = pots.map Prod.snd := by
+  rw [List.map_map]
+  apply List.map_congr_left
+  intro p hp
+  simp only [Function.comp]
+  induction pots with
+  | nil => simp at hp
+  | cons q qs ih =>
+    obtain ⟨k, f⟩ := q
+    rw [List.map_cons, List.nodup_cons] at h
+    unfold CliqueVec.get
+    rw [List.lookup_cons]
+    rcases List.mem_cons.mp hp with rfl | hp'
+    · simp
+    · have hne : p.1 ≠ k := fun e => h.1 (by rw [← e]; exact List.mem_map.mpr ⟨p, hp', rfl⟩)
+      have : (p.1 == k) = false := by simpa using hne
+      rw [this]
+      exact ih h.2 hp'
 
 /-- **`datavector`**: the materialised vector lists `total · joint / Z` over all cells of the
 domain in row-major order (every attribute of the domain occurs in some clique) -/
 theorem datavector_correct (d : Dom) (cliques : List Clique) (pots : CliqueVec (LogOf K))
     (total : LogOf K) (hd : d.WF) (hfs : FactorsOK d (pots.map Prod.snd)) (hkeys : pots.map Prod.fst = cliques)
+    (hnd : cliques.Nodup)
     (hne : cliques ≠ []) (hcover : ∀ a ∈ d.attrs, ∃ p ∈ pots, a ∈ p.2.dom.attrs)
     (hsizes : ∀ p ∈ d, 0 < p.2) (hZ : partition d pots ≠ 0) (idx : List Nat) (hidx : InRange d.shape idx) :
     (datavectorScale ((datavectorCore d cliques pots).vals.data.toList.map (fun x => (⟨x.v⟩ : PlainOf K)))
         ⟨1⟩ ⟨total.v⟩)[ravel d.shape idx]?
       = some ⟨joint pots (Dom.assign d.attrs idx) / partition d pots * 1 * total.v⟩ := by
-  sorry
+  subst hkeys
+  exact datavector_correct_gen d _ pots total hd hfs (map_get_eq_of_nodup pots hnd)
+    (fun h => hne (by rw [h]; rfl)) hcover idx hidx
 
 /-- **`krondot`**: entry `(r₁,…,r_k)` of the answer is
 `Σ_x (Π_i Qᵢ[rᵢ, xᵢ]) · total · joint(x) / Z` — the Kronecker-product query applied to the joint.
@@ -32,8 +60,8 @@ theorem krondot_correct (d : Dom) (pots : CliqueVec (LogOf K)) (mats : List (Nat
       = sumOver d d.attrs (fun _ => 0) (fun τ =>
           ((List.range d.length).map (fun i =>
             (((mats.getD i (0, [])).2).getD (ridx.getD i 0 * d.shape.getD i 0 + τ (d.attrs.getD i "")) ⟨0⟩).v)).prod
-          * joint pots τ) * total.v / partition d pots := by
-  sorry
+          * joint pots τ) * total.v / partition d pots :=
+  krondot_correct_aux d pots mats total z hd hfs hne hcover hfresh hinj hlen hshape hsizes hz ridx hr
 
 /-- **`calculate_many_marginals`** (Koller–Friedman §10.3 out-of-clique queries): on a valid
 junction tree with calibrated clique marginals (`hcal`: each stored table is `s ·` the joint's
@@ -53,6 +81,24 @@ theorem manyMarginals_correct (d : Dom) (cliques : List Clique) (t : Tree) (orde
     (e : List Attr × Factor (PlainOf K)) (he : e ∈ manyMarginals d cliques t marg fallback projections)
     (σ : Attr → Nat) (hσ : d.Valid σ) :
     e.2.dom.attrs = e.1 ∧ (e.2.sem σ).v = s * marginal d pots e.1 σ := by
-  sorry
+  rw [manyMarginals_eq] at he
+  obtain ⟨proj, hp, rfl⟩ := List.mem_map.mp he
+  cases hfind : (mmResults2 d cliques t marg).find? (fun e => JT.subset proj e.1) with
+  | none =>
+    simp only
+    exact hfb proj hp σ hσ
+  | some e' =>
+    simp only
+    have hmem : e' ∈ mmResults2 d cliques t marg := List.mem_of_find?_eq_some hfind
+    have hsub : JT.subset proj e'.1 = true :=
+      List.find?_some (p := fun (e : List Attr × Factor (PlainOf K)) => JT.subset proj e.1) hfind
+    rw [subset_iff] at hsub
+    obtain ⟨hg, hattrs⟩ := mmResults2_good hok hkeys hwf hcal hnonneg e' hmem
+    obtain ⟨hpg, hpattrs⟩ := good_project hok hkeys hwf e'.2 hg proj (hproj proj hp).1
+      (fun a ha => (hattrs a).mp (hsub a ha))
+    refine ⟨hpattrs, ?_⟩
+    have := hpg.2 σ hσ
+    rw [hpattrs] at this
+    exact this
 
 end PGM.Sem
